@@ -47,7 +47,9 @@ func poolCT(r *kit.Rand, mode string) (ct []string, not bool) {
 			return []string{"spot"}, true
 		}
 	}
-	switch r.Intn(10) {
+	switch r.Intn(11) {
+	case 10:
+		return []string{"reserved", "on-demand"}, false
 	case 0, 1, 2:
 		return nil, false
 	case 3:
@@ -251,6 +253,22 @@ func genWorld(r *kit.Rand, mode string) genOut {
 			}
 			it.CPU = kit.Pick(r, []int{4, 8, 16})
 		default:
+			if r.Chance(1, 4) {
+				// an exhausted (unavailable) offering of a capacity type that takes precedence, cheap, beside available
+				// on-demand offerings at / above the candidate price: only the available ones can be launched
+				z := kit.Pick(r, zoneNames)
+				ct := kit.Pick(r, []string{"reserved", "reserved", "spot"})
+				gone := offSpec{CT: ct, Zone: z, Price: kit.Pick(r, []int64{0, 1, anchors[0] / 8, anchors[0] - 1}), Avail: false}
+				if ct == "reserved" {
+					gone.RID = fmt.Sprintf("r-%s-%s", it.Name, z)
+				}
+				offs = append(offs, gone, offSpec{CT: "on-demand", Zone: kit.Pick(r, zoneNames),
+					Price: kit.Pick(r, []int64{anchors[0] - 1, anchors[0], anchors[0] + 1, anchors[0] * 3 / 2, anchors[len(anchors)-1], anchors[len(anchors)-1] + 1}), Avail: true})
+				it.CPU = kit.Pick(r, []int{8, 16})
+				it.Offs = dedupOffs(offs)
+				spec.Catalog = append(spec.Catalog, it)
+				continue
+			}
 			for j := r.Range(1, 4); j > 0; j-- {
 				offs = append(offs, offSpec{CT: kit.Pick(r, []string{"spot", "spot", "on-demand", "on-demand", "on-demand"}), Zone: kit.Pick(r, zoneNames), Price: nearPrice(r, anchors), Avail: !r.Chance(1, 7)})
 			}
